@@ -193,7 +193,12 @@ Proof.
   psteps H; first [ eapply ctasks_of_nc; eassumption | eapply send_worker_nc; eassumption | eapply IH; eassumption ].
 Qed.
 Lemma on_retract_response_nc s w ids n : on_retract_response s w ids = Panic n -> nocons n.
-Proof. unfold on_retract_response. intros H. destruct (retract_response_states _ _ _ _). eapply send_redirected_nc; exact H. Qed.
+Proof.
+  unfold on_retract_response. intros H. destruct (retract_response_states _ _ _ _) as [c' groups].
+  destruct (send_redirected _ groups) as [s2| |n2] eqn:E2; cbn [bind] in H; [|discriminate|].
+  - destruct (retract_wakes _ _ _ _); discriminate.
+  - inversion H; subst n2. eapply send_redirected_nc; exact E2.
+Qed.
 Lemma request_enabled_nc s w rq rv n : request_enabled s w rq rv = Panic n -> nocons n.
 Proof. unfold request_enabled. intros H. psteps H. eapply get_worker_nc; eassumption. Qed.
 
